@@ -408,6 +408,88 @@ def gen_spec(rng):
     return toks, R, info
 
 
+def gen_rect_json(rng, path):
+    """random rectangular array written directly as an ORANGE JSON input (the orangeinp API has
+    no array proto): world sphere, a (possibly rotated / reflected) box holding a rect array whose
+    cells are filled with small units (plain fill, sphere, z-cylinder, slab)."""
+    n = [rng.range(1, 3) for _ in range(3)]
+    grids = []
+    for ax in range(3):
+        g = [0.0]
+        for _ in range(n[ax]):
+            g.append(g[-1] + float(rng.range(2, 8)) * 0.5)
+        grids.append(g)
+    W = [g[-1] for g in grids]
+    minhalf = min(min(g[i + 1] - g[i] for i in range(len(g) - 1)) for g in grids) / 2
+    rot = None
+    if rng.chance(1, 2):
+        rot = rnd_rotation(rng)          # row-major, daughter-to-parent
+    t = [float(rng.range(-6, 6)) for _ in range(3)]
+    cols = [[1.0, 0.0, 0.0], [0.0, 1.0, 0.0], [0.0, 0.0, 1.0]] if rot is None else \
+        [[rot[3 * r + c] for r in range(3)] for c in range(3)]
+    # holder box in global coordinates: 6 planes
+    types, sizes, data = ["sc"], [1], []
+    Rw = math.sqrt(sum(c * c for c in t)) + math.sqrt(sum(c * c for c in W)) + 5.0
+    data.append(Rw * Rw)
+    for ax in range(3):
+        nvec = cols[ax]
+        off = sum(nvec[i] * t[i] for i in range(3))
+        for c in (0.0, W[ax]):
+            if rot is None:
+                types.append("p" + AXES[ax]); sizes.append(1); data.append(c + t[ax])
+            else:
+                types.append("p"); sizes.append(4); data += nvec + [c + off]
+    box = "1 2 ~ & 3 & 4 ~ & 5 & 6 ~ &"
+    glob = {"_type": "unit", "md": {"name": "global"},
+            "surfaces": {"types": types, "sizes": sizes, "data": data},
+            "surface_labels": ["s%d" % i for i in range(len(types))],
+            "volumes": [{"faces": [0], "logic": "0"},
+                        {"faces": [1, 2, 3, 4, 5, 6], "logic": "0 1 ~ & 2 & 3 ~ & 4 & 5 ~ &"},
+                        {"faces": [0, 1, 2, 3, 4, 5, 6], "flags": 1, "logic": "0 ~ " + box + " ~ &"}],
+            "volume_labels": ["[EXTERIOR]", "arrfill", "interior"],
+            "daughters": [1], "parent_cells": [1],
+            "transforms": [([] if (rot is None and not any(t)) else (t if rot is None else rot + t))]}
+    holder = {"_type": "unit", "md": {"name": "arr"},
+              "surfaces": {"types": [], "sizes": [], "data": []}, "surface_labels": [],
+              "volumes": [{"faces": [], "flags": 2, "logic": "* ~", "zorder": "x"},
+                          {"faces": [], "logic": "*", "zorder": "A"}],
+              "volume_labels": ["[EXTERIOR]", "arr+"],
+              "daughters": [2], "parent_cells": [1], "transforms": [[]]}
+    r = minhalf * (0.3 + 0.5 * rng.unit())
+
+    def cell_unit(kind, name):
+        ext = {"faces": [], "flags": 2, "logic": "* ~", "zorder": "x"}
+        if kind == 0:
+            return {"_type": "unit", "md": {"name": name},
+                    "surfaces": {"types": [], "sizes": [], "data": []}, "surface_labels": [],
+                    "volumes": [ext, {"faces": [], "logic": "*"}], "volume_labels": ["[EXTERIOR]", name + "f"]}
+        if kind == 1:
+            st, sd = ["sc"], [r * r]
+        elif kind == 2:
+            st, sd = ["czc"], [r * r]
+        else:
+            st, sd = ["px"], [0.0]
+        return {"_type": "unit", "md": {"name": name},
+                "surfaces": {"types": st, "sizes": [1], "data": sd}, "surface_labels": [name + "s"],
+                "volumes": [ext, {"faces": [0], "logic": "0 ~"}, {"faces": [0], "logic": "0"}],
+                "volume_labels": ["[EXTERIOR]", name + "i", name + "o"]}
+
+    kinds = [rng.below(4) for _ in range(3)]
+    units = [cell_unit(k, "c%d" % i) for i, k in enumerate(kinds)]
+    dau, tra = [], []
+    for i in range(n[0]):
+        for j in range(n[1]):
+            for k in range(n[2]):
+                dau.append(3 + rng.below(len(units)))
+                idx = (i, j, k)
+                tra += [0.5 * (grids[a][idx[a]] + grids[a][idx[a] + 1]) for a in range(3)]
+    arr = {"_type": "rectarray", "md": {"name": "arr+"}, "x": grids[0], "y": grids[1], "z": grids[2],
+           "daughters": dau, "translations": tra}
+    with open(path, "w") as f:
+        json.dump({"_format": "ORANGE", "_version": 0, "universes": [glob, holder, arr] + units}, f)
+    return Rw
+
+
 # --------------------------------------------------------------------------- one geometry
 class GeoRun:
     def __init__(self, ctx, exe, name, geo_line, json_path, extent):
@@ -715,6 +797,10 @@ def run(ctx):
         toks, R, info = gen_spec(rng)
         jp = os.path.join(tmp, "rand%d.json" % k)
         geos.append(("rand%d" % k, "geo build %s 1e-5 %s" % (jp, " ".join(toks)), jp, R, info))
+    for k in range(6 if quick else 40):
+        jp = os.path.join(tmp, "rect%d.json" % k)
+        Rw = gen_rect_json(rng, jp)
+        geos.append(("rect%d" % k, "geo file " + jp, jp, Rw, {"rect": True}))
     n_tracks_bundled = 40 if quick else 400
     n_tracks_rand = 40 if quick else 250
     total = {}
